@@ -17,6 +17,7 @@ from rules.core import pat
 from rules.core.facts import Operand, Place
 
 CRATES = ["aranya_runtime"]
+THOROUGH_CONFIGS = ["lowmem"]   # thorough tier: the same rules on the low-mem-usage build
 
 
 def impl_fn(F, trait_suffix, adt_suffix, name):
